@@ -106,6 +106,12 @@ var c14Directed = [][]Op{
 		{Kind: "writefile", P: "a/ab", Data: []byte{4}, Perm: 0o644}, {Kind: "open", P: "a", Flag: 0}, {Kind: "h:readdir", H: 0, N: 3}, {Kind: "h:readdir", H: 0, N: -1}},
 	{{Kind: "mkdirall", P: "a/b", Perm: 0o755}, {Kind: "writefile", P: "a/ab", Data: []byte{4}, Perm: 0o644}, {Kind: "open", P: "a", Flag: 0},
 		{Kind: "h:readdir", H: 0, N: 1}, {Kind: "h:readdir", H: 0, N: 1}, {Kind: "h:readdir", H: 0, N: 1}, {Kind: "readdir", P: "a"}},
+	// operations that write a record back whose contents have not been loaded yet (the load is a store call of its own and
+	// can be the one that fails), each followed by operations that need the store again
+	{{Kind: "writefile", P: "a", Data: []byte{1, 2, 3}, Perm: 0o644}, {Kind: "chmod", P: "a", Perm: 0o600}, {Kind: "stat", P: "a"},
+		{Kind: "rename", P: "a", Q: "b"}, {Kind: "stat", P: "b"}, {Kind: "readfile", P: "b"}, {Kind: "mkdir", P: "ab", Perm: 0o755}},
+	{{Kind: "mkdir", P: "a", Perm: 0o755}, {Kind: "writefile", P: "a/b", Data: []byte{7, 8}, Perm: 0o600}, {Kind: "chtimes", P: "a/b", T: 1000}, {Kind: "chmod", P: "a/b", Perm: 0o644},
+		{Kind: "rename", P: "a", Q: "ab"}, {Kind: "readfile", P: "ab/b"}, {Kind: "remove", P: "ab/b"}, {Kind: "stat", P: "ab"}},
 }
 
 func genFaultHistory(r *Rng) []Op {
